@@ -244,12 +244,12 @@ def norm_binding(d, fsig, obj):
 def norm_fa(d, obj):
     out = {}
     for k, v in d.items():
-        if k == "*":
+        if k == "*" and isinstance(v, (list, tuple)):
             out[k] = [enc(x, obj) for x in v]
-        elif k == "**":
+        elif k == "**" and isinstance(v, dict):
             out[k] = {a: enc(x, obj) for a, x in v.items()}
         else:
-            out[k] = enc(v, obj)
+            out[k] = enc(v, obj)   # also a '*' / '**' entry of the wrong shape: reported as it is
     return out
 
 
@@ -281,9 +281,11 @@ def run_group(g):
             with warnings.catch_warnings():
                 warnings.simplefilter("ignore")
                 d = filter_args(target, list(ign or []), tuple(pos), dict(kwd))
-            r["fa"] = {"ok": norm_fa(d, obj), "order": list(d.keys())}
         except Exception as e:  # noqa  -- the exception class is the observation
+            d = None
             r["fa"] = {"raise": type(e).__name__}
+        if d is not None:
+            r["fa"] = {"ok": norm_fa(d, obj), "order": list(d.keys())}
         out.append(r)
     return {"src": funcs[0][2], "srcs": [x[2] for x in funcs], "res": out}
 
